@@ -321,20 +321,13 @@ theorem lexOne_ident_x (x : Char) (w rest : List Char) (hx : x = 'x' ∨ x = 'X'
   cases w with
   | nil =>
     simp only [List.nil_append] at hs ⊢
-    rcases hr with rfl | ⟨r, rfl | rfl | rfl⟩
+    rcases hr with rfl | ⟨d, r, rfl, hm⟩
     · rcases hx with rfl | rfl <;> simp (config := {decide := true}) [lexOne]
-    · rcases hx with rfl | rfl <;>
+    · obtain ⟨f1, f2, f3⟩ := delimChar_facts d hm
+      rcases hx with rfl | rfl <;>
       · unfold lexOne
         simp (config := {decide := true}) only [if_false, if_true, show isDigitC 'x' = false by decide, show isDigitC 'X' = false by decide, true_or, or_true]
-        rw [hs]
-    · rcases hx with rfl | rfl <;>
-      · unfold lexOne
-        simp (config := {decide := true}) only [if_false, if_true, show isDigitC 'x' = false by decide, show isDigitC 'X' = false by decide, true_or, or_true]
-        rw [hs]
-    · rcases hx with rfl | rfl <;>
-      · unfold lexOne
-        simp (config := {decide := true}) only [if_false, if_true, show isDigitC 'x' = false by decide, show isDigitC 'X' = false by decide, true_or, or_true]
-        rw [hs]
+        rw [if_neg (by simp [f3]), hs]
   | cons d w' =>
     have hd : isHexStart d = false := hh
     have hdw : isWordC d = true := hw d (by simp)
